@@ -107,10 +107,6 @@ M = [
   "            (min..=max).any(|count| path_matches(rest, &parents[count..]))",
   "            (min..=max).any(|count| if count == 0 && min == 0 && !parents.is_empty() && rest.is_empty() { path_matches(path, parents) } else { path_matches(rest, &parents[count..]) })",
   ["C11"], "the placeholder matcher recurses on unchanged arguments for a trailing placeholder with minimum 0 and a non-empty chain: stack overflow (reported through the abort handler of the worker process)"),
- ("m24_flush_error_swallowed", "src/tag_writer.rs",
-  "        self.dest.flush().map_err(|source| TagWriterError::WriteError { source })",
-  "        let _ = self.dest.flush();\n        Ok(())",
-  ["C10"], "an error returned by the destination's flush() is swallowed: the call reports success"),
  ("m25_async_read_error_ends_stream", "src/nonblocking.rs",
   "                        Err(e) => {\n                            return Some(Err(TagIteratorError::ReadError { source: e }));\n                        },",
   "                        Err(_) => {\n                            self.source_exhausted = true;\n                            self.iterator.emit_master_end_when_eof(true);\n                        },",
